@@ -48,7 +48,7 @@ fn main() {
         }
     }).heavy());
     // functors and optics
-    let tfs: Vec<TF> = if quick { vec![TF { n: [1, 1], recipe: 0 }, TF { n: [2, 0], recipe: 1 }, TF { n: [1, 2], recipe: 2 }, TF { n: [0, 2], recipe: 3 }] } else { all_tfs(2, &[0, 1, 2, 3]) };
+    let tfs: Vec<TF> = if quick { vec![TF { n: [1, 1, 1], recipe: 0 }, TF { n: [2, 0, 1], recipe: 1 }, TF { n: [1, 2, 1], recipe: 2 }, TF { n: [0, 2, 1], recipe: 3 }] } else { all_tfs(2, &[0, 1, 2, 3]) };
     let sf = Spec::open(2, 1, 2, 2, 2, 1, 1);
     let uf = sf.universe();
     let ntf = tfs.len() as u64;
@@ -88,6 +88,18 @@ fn main() {
             check_arrow(&g, &h, (&ns, n), (&es, m), bound, loc);
         }
     }));
+    // structured larger diagrams (wide frontiers, many operations per layer, long chains): layering, evaluation, predicates
+    let kmax = if quick { 5 } else { 7 };
+    let shapes = ohmc::props::structured::shapes(kmax);
+    ctx.run_slice(Slice::new(format!("structured-shapes[sizes 1..{}: {} diagrams; deviations <= {}]", kmax, shapes.len(), bound), shapes.len() as u64, |i, loc| {
+        check_layer(&shapes[i as usize].1, bound, loc);
+        check_predicates(&shapes[i as usize].1, bound, loc);
+    }).heavy());
+    let sprogs = ohmc::props::structured::programs(kmax);
+    ctx.run_slice(Slice::new(format!("structured-programs[sizes 1..{}: {} programs; deviations <= {}]", kmax, sprogs.len(), bound), sprogs.len() as u64, |i, loc| {
+        check_eval(&sprogs[i as usize].1, &interp, bound, loc);
+        check_layer(&sprogs[i as usize].1, bound, loc);
+    }).heavy());
     let meta = Meta {
         rule: format!("configurations x inputs: every choice tape with at most {} non-default answers of the adversarial backend (argsort tie order, component numbering, sparse_bincount row order, scatter filler; all tapes for the primitive-level slices) crossed with every input of the listed universes, for composition, tensor, functor and optic application, layering, evaluation, structural predicates and morphism tests; compared with the Vec backend's result (isomorphic diagrams, identical booleans / Option-ness / evaluation outputs and interpreter calls, layer validity by the C15 oracle); non-trivial = some tape changes the raw (un-normalised) result", bound),
         bounds: format!("deviation bound {} (at most {} executions per input), inputs: <=2-3 nodes, <=1-2 hyperedges", bound, CAP),
